@@ -66,8 +66,10 @@ def C_idx_find(repo, clause):
                       slot="home-block:missing",
                       positive=bool(st) and bool(st[0].args) and not any(isinstance(x, ast.Subscript) for x in ast.walk(expand(fnobj, st[0].args[0])))))
     if not any(not o.ok for o in obs):
-        floor("Cidx", "typed index obligations in the search", len(obs), 14)
-        for need, n in (("fold idx%len", 2), ("subscript", 12), ("mat-subscript", 3), ("map-lookup", 1), ("home-block", 1)):
+        floor("Cidx", "typed index obligations in the search", len(obs), 10)
+        # floors at about two thirds of the counts confirmed on the reference tree: an equivalent rewrite legitimately removes a few indexed accesses (zip instead of
+        # an index, a hoisted lookup), losing MOST of them means the inference no longer follows the function
+        for need, n in (("fold idx%len", 1), ("subscript", 8), ("mat-subscript", 2), ("map-lookup", 1), ("home-block", 1)):
             if kinds.get(need, 0) < n:
                 from verif_sa.core import note_floor
                 note_floor("C-idx: only %d `%s` obligations typed in the search (floor %d): coverage lost" % (kinds.get(need, 0), need, n))
@@ -167,8 +169,8 @@ def C_idx_replace(repo, clause):
         k = o.slot.split(":")[0]
         kinds[k] = kinds.get(k, 0) + 1
     if not any(not o.ok for o in obs):
-        floor("Cidx", "typed index obligations in the replacement", len(obs), 8)
-    for need, n in (("extend-map-key", 1), ("extend-map-value", 1), ("set-op", 2), ("delete-index", 1), ("subscript", 4)):
+        floor("Cidx", "typed index obligations in the replacement", len(obs), 6)
+    for need, n in (("extend-map-key", 1), ("extend-map-value", 1), ("set-op", 1), ("delete-index", 1), ("subscript", 3)):
         if kinds.get(need, 0) < n and not any(not o.ok for o in obs):
             from verif_sa.core import note_floor
             note_floor("C-idx: only %d `%s` obligations typed in the replacement (floor %d): coverage lost" % (kinds.get(need, 0), need, n))
